@@ -105,6 +105,20 @@ def build_repo(release=False):
 def build_harness(name, release=False, bins=None):
     """build /verif/harness/<name> (path-depends on /repo crates); returns dir holding the binaries"""
     hdir = os.path.join(VERIF, "harness", name)
+    if REPO != "/repo":
+        # the harness crates path-depend on /repo: for another tree build a copy whose paths point there
+        src = hdir
+        hdir = os.path.join(CACHE, "harness-src", name)
+        if os.path.exists(hdir):
+            shutil.rmtree(hdir)
+        shutil.copytree(src, hdir, ignore=shutil.ignore_patterns("target", "Cargo.lock"))
+        for root, _, files in os.walk(hdir):
+            for f in files:
+                if f in ("Cargo.toml", "build.rs") or f.endswith(".rs"):
+                    fp = os.path.join(root, f)
+                    txt = open(fp).read()
+                    if "/repo/" in txt:
+                        open(fp, "w").write(txt.replace("/repo/", REPO.rstrip("/") + "/"))
     lock = os.path.join(hdir, "Cargo.lock")
     with Lock("cargo-harness-" + name):
         # the harness resolves against the repository's own lock file (offline, no index)
